@@ -10,6 +10,8 @@ import FinProto.Spec
 import FinProto.Registry
 import FinProto.Cost
 import FinProto.NoSvc
+import FinProto.GoIRSpec
+import FinProto.GenCodec
 open FinProto FinProto.Wire
 
 def showOutcome (f : α → String) : Outcome α → String
@@ -45,8 +47,75 @@ def showRes : Reg.Res → String
   | .svc (some i) => s!" s{i}"
   | .unit => " u"
 
-def runLine (env : Env) (toks : List String) : String :=
+/-- the methods of the element type of an object list, taken from the schema interpreter -/
+def irExt (env : Env) (op : Op) : GoIR.Ext Val :=
+  match op with
+  | .objs _ ty _ =>
+    { enc := fun o b => (encTy env env.fuel ty o b).map (·.2), new := zeroTy env env.fuel ty, dec := fun _ => decTy env env.fuel ty }
+  | _ => { enc := fun _ _ => .err, new := .nil, dec := fun _ _ => .err }
+
+def irCall (env : Env) (ir : List GoIR.Func) (op : Op) (c : Nat × List GoIR.Ty × List (GoIR.V Val)) (buf : Bytes) : GoIR.CallRes Val :=
+  GoIR.runFn (irExt env op) ir GoIR.loopFuel GoIR.callDepth c.1 c.2.1 c.2.2 buf
+
+def cksIx : Alg → Option Nat
+  | .crc16 => some GoIR.ixCrc16
+  | .crc32 => some GoIR.ixCrc32
+  | .sse => some GoIR.ixSse
+  | .szse => some GoIR.ixSzse
+  | .unknown => none
+
+def runLine (env : Env) (ir : List GoIR.Func) (toks : List String) : String :=
   match toks with
+  | "irw" :: d :: rest =>             -- the codec function an encoder statement names, as translated into GoIR from the source
+    match pOp rest with
+    | some (op, rest) =>
+      match pVal rest with
+      | some (v, []) =>
+        match GoIR.opWriter (d == "1") op v with
+        | some c =>
+          if GoIR.runnable ir GoIR.callDepth c.1 then
+            match irCall env ir op c [] with
+            | .ret [.err false] b => "ok | " ++ hexOf b ++ " | " ++ showVal v
+            | .ret [.err true] _ => "err"
+            | .panic => "panic"
+            | .timeout => "timeout"
+            | _ => "ir-bad-result"
+          else "ir-skip"
+        | none => "bad-case"
+      | _ => "bad-case"
+    | none => "bad-case"
+  | "irr" :: d :: rest =>
+    match pOp rest with
+    | some (op, [hex]) =>
+      match parseHex hex, GoIR.opReader (d == "1") op with
+      | some bs, some c =>
+        if GoIR.runnable ir GoIR.callDepth c.1 then
+          match irCall env ir op c bs with
+          | .ret [x, .err false] b =>
+            (match GoIR.valOfV x with
+             | some v => s!"ok | {bs.length - b.length} | " ++ showVal v
+             | none => "ir-bad-value")
+          | .ret [_, .err true] _ => "err"
+          | .panic => "panic"
+          | .timeout => "timeout"
+          | _ => "ir-bad-result"
+        else "ir-skip"
+      | _, _ => "bad-case"
+    | _ => "bad-case"
+  | ["irc", alg, hex] =>
+    match pAlg [alg], parseHex hex with
+    | some (a, _), some bs =>
+      match cksIx a with
+      | some f =>
+        if GoIR.runnable ir GoIR.callDepth f then
+          match GoIR.runFn GoIR.noExt ir GoIR.loopFuel GoIR.callDepth f [] [] bs with
+          | .ret [.int n] b => if b == bs then s!"ok | {n % 4294967296}" else "ir-buffer-changed"
+          | .panic => "panic"
+          | .timeout => "timeout"
+          | _ => "ir-bad-result"
+        else "ir-skip"
+      | none => "bad-case"
+    | _, _ => "bad-case"
   | "enc" :: pre :: rest =>
     match parseHex pre, pVal rest with
     | some pre, some (v, []) =>
@@ -128,17 +197,18 @@ def runLine (env : Env) (toks : List String) : String :=
     | _, _ => "bad-case"
   | _ => "bad-case"
 
-partial def loop (env : Env) (hin hout : IO.FS.Stream) : IO Unit := do
+partial def loop (env : Env) (ir : List GoIR.Func) (hin hout : IO.FS.Stream) : IO Unit := do
   let line ← hin.getLine
   if line.isEmpty then return ()
   let toks := (line.trimAscii.toString.splitOn " ").filter (· ≠ "")
-  hout.putStrLn (runLine env toks)
-  loop env hin hout
+  hout.putStrLn (runLine env ir toks)
+  loop env ir hin hout
 
 /-- `driver` evaluates the cases at the environment regenerated from the current sources; `driver --pinned` at the
     committed pinned environment (used when the regenerated one contains unrecognised statements) -/
 def main (args : List String) : IO Unit := do
   let hin ← IO.getStdin
   let hout ← IO.getStdout
-  loop (if args.contains "--pinned" then Pinned.env else Gen.env) hin hout
+  if args.contains "--pinned" then loop Pinned.env PinnedIR.codecProg hin hout
+  else loop Gen.env Gen.codecProg hin hout
   hout.flush
